@@ -105,7 +105,8 @@ def bootstrap_ci(
         z0 = scipy.stats.norm.ppf(p0)
 
         z_alpha_lower = scipy.stats.norm.ppf(alpha_lower)
-        z_alpha_upper = scipy.stats.norm.ppf(alpha_upper)
+        # Upper alpha/2 point; 1 - alpha/2 is not representable for tiny alpha
+        z_alpha_upper = scipy.stats.norm.isf(alpha_lower)
 
         if method == "bc":
             # See (11.33) in Efron, Hastie
